@@ -115,7 +115,9 @@ def run_task(args):
     except ValueError:
         pass
     try:
-        if clause.enumerate is not None:
+        if clause.fuzz is not None:
+            _run_fuzz(pid, clause, col, tier, shard, seed)
+        elif clause.enumerate is not None:
             _run_enumeration(clause, col, tier, shard, nshards)
         else:
             _run_hypothesis(pid, clause, col, tier, shard, seed, examples)
@@ -128,6 +130,73 @@ def run_task(args):
         except ValueError:
             pass
     return col.result()
+
+
+def _run_fuzz(pid, clause, col, tier, shard, seed):
+    """Atheris campaign in a child process (libFuzzer never returns)."""
+    import glob
+    import shutil
+    import subprocess
+    import tempfile
+    from vf import fuzz as vfuzz
+    spec = clause.fuzz
+    runs = spec["runs"].get(tier, 0)
+    if not runs:
+        return
+    env = dict(os.environ)
+    env["PYTHONPATH"] = os.pathsep.join(
+        [os.environ.get("RIG_REPO", "/repo"), HERE,
+         os.path.join(HERE, ".deps")])
+    probe = subprocess.run([sys.executable, "-c", "import atheris"], env=env,
+                           capture_output=True)
+    if probe.returncode != 0:
+        subprocess.run([os.path.join(HERE, "setup.sh")], capture_output=True)
+        probe = subprocess.run([sys.executable, "-c", "import atheris"],
+                               env=env, capture_output=True)
+    if probe.returncode != 0:
+        col.classes["atheris-unavailable"] += 1
+        return
+    tmp = tempfile.mkdtemp(prefix="vf-fuzz-")
+    try:
+        corpus = os.path.join(tmp, "corpus")
+        os.makedirs(corpus)
+        seeded = shard % 2 == 1
+        if seeded:                     # odd shards start from valid inputs
+            for i, b in enumerate(spec.get("corpus", [])):
+                with open(os.path.join(corpus, "seed%d" % i), "wb") as f:
+                    f.write(b)
+        stats = os.path.join(tmp, "stats.json")
+        cmd = [sys.executable, "-m", "vf.fuzz", spec["target"], stats,
+               "-runs=%d" % runs,
+               "-seed=%d" % (_seed_for(pid, clause.name, shard, seed)
+                             % (2 ** 31 - 1) + 1),
+               "-max_len=%d" % spec.get("max_len", 256),
+               "-artifact_prefix=" + os.path.join(tmp, "crash-"), corpus]
+        subprocess.run(cmd, env=env, cwd=HERE, capture_output=True,
+                       timeout=spec.get("timeout", 3000))
+        if os.path.exists(stats):
+            with open(stats) as f:
+                st = json.load(f)
+            col.evaluations += st["executions"]
+            col.classes["fuzz-executions"] += st["executions"]
+            col.classes["fuzz-nontrivial-executions"] += st["nontrivial"]
+            col.classes["fuzz-corpus-" + ("seeded" if seeded
+                                          else "empty")] += 1
+        decode = vfuzz.TARGETS[spec["target"]][2]
+        for path in sorted(glob.glob(os.path.join(tmp, "crash-*"))):
+            with open(path, "rb") as f:
+                data = f.read()
+            case = decode(data)
+            if case is None:
+                continue
+            try:
+                clause.check(case)
+            except Violation as v:
+                col.failure = (case, v.message, v.details)
+                return
+            col.classes["fuzz-crash-not-reproduced"] += 1
+    finally:
+        shutil.rmtree(tmp, ignore_errors=True)
 
 
 def _run_enumeration(clause, col, tier, shard, nshards):
@@ -360,9 +429,12 @@ def run_checks(mod, pid, args, seed, t0):
                if not args.clause or c.name in args.clause]
     tasks = []
     for i, c in clauses:
-        if tier not in c.examples and c.enumerate is None:
+        if c.fuzz is not None and not c.fuzz["runs"].get(tier, 0):
             continue
-        if c.examples.get(tier, 1) == 0:
+        if tier not in c.examples and c.enumerate is None and \
+                c.fuzz is None:
+            continue
+        if c.fuzz is None and c.examples.get(tier, 1) == 0:
             continue
         nshards = args.shards or c.shards[tier]
         for s in range(nshards):
@@ -443,7 +515,8 @@ def run_checks(mod, pid, args, seed, t0):
             "documented_failures": pc["documented"],
             "excluded": pc["excluded"],
             "shards": pc["shards"],
-            "engine": "enumeration" if c.enumerate else "hypothesis",
+            "engine": "atheris" if c.fuzz else
+            ("enumeration" if c.enumerate else "hypothesis"),
             "exhaustive": bool(c.exhaustive and c.enumerate),
         }
     rule = getattr(mod, "RULE", None) or "; ".join(
